@@ -274,7 +274,7 @@ func (e *Eng) AppendPartsUnder(r *Reached, v ssa.Value) (bases []ssa.Value, part
 				if !esc && len(sts) > 0 {
 					n := 0
 					for _, st := range sts {
-						if r == nil || r.Instr[st] {
+						if (r == nil || r.Instr[st]) && e.storeReaches(r, st, x, sts) {
 							n++
 							rec(st.Val)
 						}
